@@ -144,6 +144,9 @@ def poly_spec(labels, form, spin, quad=False, tiny=False, boolexpr=False, min_te
         "name": st.just(None) if plain else st.sampled_from([None, None, "nm", 3, ("t", 1), 0, "", 0.0, ()]),
         "cons": st.lists(_con(labels), min_size=0, max_size=max_cons) if form in PC and not plain else st.just([]),
         "perm": st.just(None) if (plain or form == "dict" or gen.is_matrix(form)) else _perm(),
+        # after the constraints every term that carries an ancilla is removed again: the ancilla counter then exceeds
+        # what the remaining terms show
+        "strip": gen.pick((False, 3), (True, 1)) if form in PC and not plain else st.just(False),
         # a term that is added and cancelled again: a single label (a stale variable if it is new) or, for the
         # non-quadratic types, a key over the first labels of higher degree than anything else in the model (a stale
         # *degree*: the recorded degree then exceeds the true one)
@@ -219,6 +222,11 @@ def mk(qv, p):
         if rel != "eq":
             kw["log_trick"] = bool(log_trick)
         lib(getattr(M, "add_constraint_%s_zero" % rel), gen.terms_dict(cterms), what="build_constraint_" + rel, **kw)
+    if p.get("strip"):
+        def strip():
+            for k in [k for k in dict.keys(M) if any(isinstance(l, str) and l.startswith("__a") for l in k)]:
+                M[k] -= M[k]
+        lib(strip, what="build_strip")
     if p.get("stale"):
         k = tuple(p["stale"])
 
